@@ -206,31 +206,46 @@ func c12Sources(c *Ctx, r *Report, ci *clientInfo) {
 		r.undecided("R12.3", id, ci.problem, c.pos(ci.do.Pos()))
 		return
 	}
-	fr := ci.inner
-	for _, rs := range fr.returns {
-		if len(rs.state) == 0 {
-			continue
-		}
-		pos := c.pos(rs.instr.Pos())
-		cls := ci.errorClass(fr, rs.vals[1])
-		switch {
-		case cls == "nil":
-			continue
-		case cls == "ClientError":
-			ifc := rs.vals[1].(AIface)
-			p := ifc.val.(APtr)
-			cause := fr.loadPath(p.obj, ".0", types.Universe.Lookup("error").Type(), rs.instr)
-			cc := ci.errorClass(fr, cause)
-			ok := cc == "errors.New" || cc == "asProtocolErrorFunc" || strings.HasPrefix(cc, "raw-transport:") || cc == "raw-invoke:Flush" || cc == "call:flush"
-			if ok {
-				r.ok("R12.3", id, "*ClientError cause is of class "+cc+" (constant, transport or recogniser result)", pos, true)
-			} else {
-				r.fail("R12.3", id, "*ClientError can wrap a value of unexpected origin", pos, cc, "cause:"+cc)
+	frames := []*Frame{ci.inner}
+	visited := map[*Frame]bool{ci.inner: true}
+	for fi := 0; fi < len(frames); fi++ {
+		fr := frames[fi]
+		for _, rs := range fr.returns {
+			if len(rs.state) == 0 {
+				continue
 			}
-		case strings.HasPrefix(cls, "ClientError("), cls == "ctx.Err":
-			r.ok("R12.3", id, "returns the constant-content error "+cls, pos, true)
-		default:
-			r.fail("R12.3", id, "do() can return an error of unexpected origin", pos, cls, "class:"+cls)
+			pos := c.pos(rs.instr.Pos())
+			nres := len(rs.vals)
+			cls := ci.errorClass(fr, rs.vals[nres-1])
+			if strings.HasPrefix(cls, "call:") && cls != "call:flush" {
+				// forwarded from an inlined helper of the client: its returns are examined in turn
+				if ch := ci.childOfCall(rs.vals[nres-1]); ch != nil && ch.fn.Pkg == ci.do.Pkg {
+					if !visited[ch] {
+						visited[ch] = true
+						frames = append(frames, ch)
+					}
+					continue
+				}
+			}
+			switch {
+			case cls == "nil":
+				continue
+			case cls == "ClientError":
+				ifc := rs.vals[nres-1].(AIface)
+				p := ifc.val.(APtr)
+				cause := fr.loadPath(p.obj, ".0", types.Universe.Lookup("error").Type(), rs.instr)
+				cc := ci.errorClass(fr, cause)
+				ok := cc == "errors.New" || cc == "asProtocolErrorFunc" || strings.HasPrefix(cc, "raw-transport:") || cc == "raw-invoke:Flush" || cc == "call:flush"
+				if ok {
+					r.ok("R12.3", id, "*ClientError cause is of class "+cc+" (constant, transport or recogniser result)", pos, true)
+				} else {
+					r.fail("R12.3", id, "*ClientError can wrap a value of unexpected origin", pos, cc, "cause:"+cc)
+				}
+			case strings.HasPrefix(cls, "ClientError("), cls == "ctx.Err":
+				r.ok("R12.3", id, "returns the constant-content error "+cls, pos, true)
+			default:
+				r.fail("R12.3", id, "do() can return an error of unexpected origin", pos, cls, "class:"+cls)
+			}
 		}
 	}
 	// Do: the only non-nil response is parseResponseFunc's result
